@@ -71,7 +71,7 @@ def is_down(positive, d, ctx):
 
 
 def body(ctx, n, positive, with_bounds, dimcoord, data_pos, pd, d2s, depth_mode, via, second=False, bounds_coords=False, dangling=False,
-         numpy_options=False, layer_index=False):
+         numpy_options=False, layer_index=False, extra_dim=False):
     from emsarray.operations import depth as depth_ops
     ds, dim, d, b, temp, dims = build(ctx, n, positive, with_bounds, dimcoord, data_pos, depth_mode, second)
     if layer_index and not dimcoord:
@@ -97,6 +97,13 @@ def body(ctx, n, positive, with_bounds, dimcoord, data_pos, pd, d2s, depth_mode,
     names = ['zc', 'zalt'] if second else ['zc']
     if second and n % 2:
         names = names[::-1]
+    if extra_dim:
+        # a second depth axis with a dimension coordinate of its own (layer faces next to layer centres), same sign
+        # convention, listed after the first
+        sign = 1.0 if positive.lower() == 'down' else -1.0
+        ds = ds.assign_coords(zw=(('zw',), sign * numpy.array([1.5, 4.0, 9.0]), {'positive': positive}))
+        ds['wflux'] = (('zw', 'x'), numpy.arange(6.0).reshape(3, 2))
+        names = names + ['zw']
     before_attrs = dict(ds['zc'].attrs)
     snap = snapshot(ds)
     before_vals = list(ds['zc'].values)
@@ -241,6 +248,12 @@ def cases(tier):
             yield Case(f'sym:{positive}:pd{pd}:d2s{d2s}:b{int(pd is None)}:n3:layer-index', body,
                        dict(n=3, positive=positive, with_bounds=(pd is None), dimcoord=False, data_pos=2, pd=pd, d2s=d2s, depth_mode='symbolic',
                             via='function', layer_index=True, second=(d2s is True)), patches=depthcommon.patches, max_paths=200)
+    # two depth axes, the second one a dimension coordinate
+    for positive in ('up', 'down'):
+        for (pd, d2s) in opts:
+            yield Case(f'sym:{positive}:pd{pd}:d2s{d2s}:b1:n2:second-depth-axis', body,
+                       dict(n=2, positive=positive, with_bounds=True, dimcoord=False, data_pos=1, pd=pd, d2s=d2s, depth_mode='symbolic',
+                            via='function', extra_dim=True), patches=depthcommon.patches, max_paths=200)
     # bounds held as coordinates
     for positive in ('up', 'down'):
         for (pd, d2s) in opts:
